@@ -77,10 +77,33 @@ def cross_file_trees():
     return out
 
 
+def reference_matrix_trees():
+    """One tree per ordered pair (user directory A, defining directory B), A != B: a struct in A has a field whose
+    type is declared in B.  Every tree also has a packet in net/client and net/server, as real trees do."""
+    out = []
+    dirs = list(specs.FILES)
+    for a in dirs:
+        for b in dirs:
+            if a == b:
+                continue
+            tag = (a + "_uses_" + b).replace("/", "-")
+            da = "".join(w.capitalize() for w in a.replace("/", " ").split())
+            db = "".join(w.capitalize() for w in b.replace("/", " ").split())
+            files = {d: [] for d in dirs}
+            files[b].append(struct(f"Def{db}", [field("v", "short")]))
+            files[b].append(enum(f"Kind{db}", "char", [("One", 1), ("Two", 2)]))
+            files[a].append(struct(f"Use{da}", [field("d", f"Def{db}"), field("k", f"Kind{db}:short", optional="true")]))
+            files["net/client"].append(packet("Fam1", "Act", [field("n", "char")]))
+            files["net/server"].append(packet("Fam1", "Act", [field("n", "char")]))
+            out.append((f"ref:{tag}", files, 1))
+    return out
+
+
 def all_trees(tier):
     files, nf = corpus_tree()
     trees = [("corpus", files, nf)]
     for name, f in cross_file_trees():
         trees.append((name, f, 4))
     trees.append(("minimal", {}, 1))
+    trees += reference_matrix_trees()
     return trees
